@@ -11,10 +11,21 @@ impl VxPath {
     #[verifier::external_body]
     pub fn to_string(&self) -> (r: Str) ensures r@ == self.text() { unimplemented!() }
 }
+// syn::Visibility: `pub`, `pub(path)` or nothing
 #[verifier::external_body]
-pub struct VxVisibility { _p: core::marker::PhantomData<()> }
+pub struct VxPubToken { _p: core::marker::PhantomData<()> }
+#[verifier::external_body]
+pub struct VxVisRestricted { _p: core::marker::PhantomData<()> }
+impl VxVisRestricted { pub uninterp spec fn path_toks(&self) -> Seq<Tok>; }
+pub enum VxVisibility { Public(VxPubToken), Restricted(VxVisRestricted), Inherited }
 impl VxVisibility {
-    pub uninterp spec fn toks(&self) -> Seq<Tok>;
+    pub open spec fn toks(&self) -> Seq<Tok> {
+        match self {
+            VxVisibility::Inherited => Seq::<Tok>::empty(),
+            VxVisibility::Public(_) => toks!{ pub },
+            VxVisibility::Restricted(r) => { let p = r.path_toks(); toks!{ pub ( #p ) } },
+        }
+    }
     #[verifier::external_body]
     pub fn vx_to_tokens(&self, t: &mut TokenStream) ensures final(t)@ == old(t)@.add(self.toks()) { unimplemented!() }
 }
@@ -24,3 +35,24 @@ impl FsPath { pub uninterp spec fn key(&self) -> Seq<char>; }
 #[verifier::external_body]
 pub struct FsPathBuf { _p: core::marker::PhantomData<()> }
 impl FsPathBuf { pub uninterp spec fn key(&self) -> Seq<char>; }
+impl FsPath {
+    // Path::to_str: Some(text) iff the path is valid UTF-8 (a function of the path)
+    #[verifier::external_body]
+    pub fn to_str(&self) -> (r: Option<&Str>)
+        ensures r.is_some() == path_to_str(self.key()).is_some(), r.is_some() ==> r.unwrap()@ == path_to_str(self.key()).unwrap()
+    { unimplemented!() }
+}
+pub uninterp spec fn path_to_str(key: Seq<char>) -> Option<Seq<char>>;
+pub open spec fn inherited_vis() -> VxVisibility { VxVisibility::Inherited }
+pub trait VxAsPath<'a> { fn vx_as_path(&'a self) -> Option<&'a FsPath>; }
+impl<'a> VxAsPath<'a> for Option<FsPathBuf> {
+    #[verifier::external_body]
+    fn vx_as_path(&'a self) -> (r: Option<&'a FsPath>)
+        ensures r.is_some() == self.is_some(), self.is_some() ==> r.unwrap().key() == self.unwrap().key()
+    { unimplemented!() }
+}
+// TokenStream::default() is the empty stream (Option::unwrap_or_default)
+impl Default for TokenStream {
+    #[verifier::external_body]
+    fn default() -> (r: TokenStream) ensures r@ == Seq::<Tok>::empty() { unimplemented!() }
+}
